@@ -6,7 +6,7 @@ RULE = ('generated mixin programs: 1-3 definitions (arity 0-3, trailing defaults
         '@media, nested calls, @arguments), 1-3 call sites before/after the definitions with literal / multi-token arguments separated by , or ;, an '
         'ordinary rule used as a mixin; the real output is compared byte-for-byte with the Coq evaluator model (parameters bound in the caller frame, '
         'as the code does) and item-by-item with the reference semantics (inlining with parameters in a frame of their own); distinct = distinct text; '
-        'non-trivial = at least one call with arguments and a body with a nested rule or a nested call')
+        'non-trivial = at least one call with arguments and a body with a nested rule or a nested call; plus the hand-inlining oracle on the real compiler (harness/props/inline_oracle.py): plain calls, namespaces, mixins defined inside mixins, defaults written in terms of other parameters, guarded recursion, top-level calls, one program in four right after a rejected compilation')
 ASSUMPTIONS = ['hygiene granted by the property: parameter names are not names of other variables; callers define no local that shadows a global',
                'guards are C06; recursion is C20']
 TRUSTED = ['modelled by hand: Deferred.parse / Mixin.call / parse_args as call_mixin + bind_params (coq/Model/Eval.v); reference: sem_call (coq/Spec/Sem.v)']
@@ -22,89 +22,11 @@ def hook(g, rng):
     return g.mixin_program()
 
 
-# ---- the property itself, on the real compiler only: a program with calls vs the same program with every call replaced, by hand, by the
-# body of the mixin with the arguments written in place of the parameters.  Bodies use arithmetic, built-in functions of the parameters,
-# strings with @{param}, nested rules and @media: constructs outside the evaluator model.
-BODY_DECLS = ['width: (ceil({a}) * 2)', 'height: {a} + 1', 'margin: round({a}) {b}', 'padding: ({a} * 2) ({b} + 1)', 'top: floor({a} / 2)', 'left: -{a}',
-              'content: "v{ia}w"', 'border: {b} solid', 'line-height: percentage(0.5) {a}', 'font-size: increment({a})', 'z-index: {b}', 'min-width: ({a} + {b}) * 2',
-              'max-width: ceil({a} + 0.5)']
-ARGS = ['1.5px', '3.5px', '2', '10px', '7.25em', '0.5', '12pt', '4']
-
-
-def inline_program(rng):
-    nm = rng.randint(1, 2)
-    defs = []
-    for i in range(nm):
-        decls = rng.sample(BODY_DECLS, rng.randint(1, 3))
-        nested = rng.random() < 0.4
-        media = rng.random() < 0.25
-        defs.append({'name': '.mx%d' % i, 'decls': decls, 'nested': rng.choice(['.in', '&:hover', '> .k']) if nested else None,
-                     'nested_decl': rng.choice(BODY_DECLS), 'media': media, 'media_decl': rng.choice(BODY_DECLS)})
-
-    def body(d, a, b, ia):
-        f = lambda s: s.format(a=a, b=b, ia=ia)
-        out = ''.join('  %s;\n' % f(x) for x in d['decls'])
-        if d['nested']:
-            out += '  %s { %s; }\n' % (d['nested'], f(d['nested_decl']))
-        if d['media']:
-            out += '  @media print { %s; }\n' % f(d['media_decl'])
-        return out
-    with_calls, inlined = '', ''
-    for d in defs:
-        with_calls += '%s(@a; @b) {\n%s}\n' % (d['name'], body(d, '@a', '@b', '@{a}'))
-    if rng.random() < 0.5:
-        # a mixin made of nested rules only, called at the TOP level of the sheet
-        w = rng.choice(ARGS)
-        with_calls += '.cols(@w) {\n  .col-1 { width: @w; }\n  .col-2 > em { width: (@w * 2); }\n}\n.cols(%s);\n' % w
-        inlined += '.col-1 { width: %s; }\n.col-2 > em { width: (%s * 2); }\n' % (w, w)
-    ncall = rng.randint(2, 4)
-    # arguments that are variables whose VALUE mentions a variable named like a parameter of the callee (@a / @b): the argument means its
-    # value at the call site, the callee's parameters must not capture the names inside it
-    indirect = rng.random() < 0.35
-    if indirect:
-        ga, gb = rng.choice(ARGS), rng.choice(ARGS)
-        pre = '@a: %s;\n@b: %s;\n@ua: @b;\n@ub: @a;\n@uc: @ua;\n' % (ga, gb)
-        with_calls = pre + with_calls
-        inlined = pre + inlined
-    for c in range(ncall):
-        d = rng.choice(defs)
-        a, b = rng.choice(ARGS), rng.choice(ARGS)
-        if indirect and rng.random() < 0.7:
-            a, b = rng.choice([('@ua', '@ub'), ('@ub', b), (a, '@ua'), ('@uc', '@ub'), ('@b', '@a')])
-        own = 'color: red;\n' if rng.random() < 0.5 else ''
-        sep = rng.choice([';', ','])
-        with_calls += '.call%d {\n%s  %s(%s%s %s);\n}\n' % (c, own, d['name'], a, sep, b)
-        inlined += '.call%d {\n%s%s}\n' % (c, own, body(d, a, b, ('@{%s}' % a[1:]) if a.startswith('@') else a))
-    if rng.random() < 0.5:           # definitions after the calls
-        lines = with_calls.split('}\n')
-    return with_calls, inlined
-
-
 def run(ctx):
-    import random
-    from .. import impl, sheetcases as SC
+    from . import inline_oracle
     out = P.run_sheets(ctx, 5, FEATURES, 150, 4000, depth=2, all_opts=False, wild=False, nontrivial=nontrivial, gen_hook=hook)
-    rng = random.Random(ctx['seed'] * 1000003 + 505)
-    n = (80 if ctx['tier'] == 'quick' else 2000) * ctx.get('mult', 1)
-    progs = [inline_program(rng) for _ in range(n)]
-    opts = [rng.choice(SC.ALL_OPTS) for _ in progs]
-    with impl.Pool() as pool:
-        # one program in four runs right after a rejected compilation in the same worker process
-        poison = [rng.choice(SC.POISON) if rng.random() < 0.25 else None for _ in progs]
-        raw = pool.run([({'kind': 'compile_many', 'texts': [ps, p[0]], 'opts': SC.impl_opts(o)} if ps else {'kind': 'compile', 'text': p[0], 'opts': SC.impl_opts(o)})
-                        for p, o, ps in zip(progs, opts, poison)], timeout=20.0)
-        a = [(x['results'][-1] if x.get('r') == 'many' else x) for x in raw]
-        b = pool.run([{'kind': 'compile', 'text': p[1], 'opts': SC.impl_opts(o)} for p, o in zip(progs, opts)])
-    skipped = 0
-    for (wc, inl), o, x, y in zip(progs, opts, a, b):
-        out['evaluations'] += 1
-        if y.get('r') != 'ok':
-            skipped += 1            # the hand-inlined text itself is not accepted (not a statement about calls)
-            continue
-        if x.get('r') != 'ok' or x['css'] != y['css']:
-            out['spec_mismatch'].append({'input': {'text': wc, 'inlined': inl, 'opts': o, 'preceded_by': poison[progs.index((wc, inl))]}, 'impl': x, 'spec': {'the hand-inlined program compiles to': y}, 'classes': []})
-    out.setdefault('distribution', {})['inline_oracle'] = {'programs': len(progs), 'inlined_text_rejected': skipped}
-    return out
+    n = (100 if ctx['tier'] == 'quick' else 2500) * ctx.get('mult', 1)
+    return inline_oracle.run(ctx, out, n, 505)
 
 
 replay = P.replay
